@@ -6,6 +6,8 @@ import LachesisVerif.Proofs.ElectionL3
 import LachesisVerif.Proofs.ElectionSingle
 import LachesisVerif.Proofs.ElectionComplete
 import LachesisVerif.Proofs.ElectionExample
+import LachesisVerif.Proofs.OrdererFinal
+import LachesisVerif.Proofs.RefEquivG
 /-!
 # C10 — Consensus output matches an independent reference implementation
 
@@ -23,32 +25,41 @@ Status: PARTIAL proof. Proved below:
   abft/election and abft/event_processing.go): the Atropos choice rule (`chooseAtropos_spec`), the vote
   rule (`vote_rule`: tie = yes, decision on quorum), the round arithmetic (`round_rule`), and the
   invariants of any run of `processRoot` from `reset` (`election_invariants`,
-  `election_no_early_decision`, `election_atropos_is_slot_root`): yes-votes name a root of the frame
-  to decide in the subject's slot, decisions are written only in rounds ≥ 2 and at most once per
-  subject, the returned frame is `frameToDecide`;
+  `election_no_early_decision`, `election_atropos_is_slot_root`);
 * about the graph-level rules (`Spec/ElectionRules.lean`: `FC` = C05's `FCSpec`, `IsRoot`, the frame
   rule `Allowed`, `voteYes` by recursion on the round, `DecidesYes/No`, `IsAtropos`, `Forker`, `BFT`):
-  L1 (`L1_quorums_share_honest` on masks, `L1_graph` on the graph definitions), L3
-  (`L3_votes_stable`: votes and decisions of old events are unchanged when the history grows), L2
-  (`L2_one_root_per_slot`: under `Valid`, `FramesAccepted`, `BFT` two different roots of one slot are
-  never both forkless-caused), L4 (`L4_decision_is_final`: a decision fixes all later votes and
-  excludes the opposite decision), `atropos_unique`;
-* the tie between the two (`C10_single_election_partial`, `C10_single_election_BFT`,
-  `C10_processRoot_refines`): one election of the model, fed roots in any closed order with
-  `observe` = `FC` and `frameRoots` = the roots by frame, stores exactly the votes `voteYes` and
-  decisions of the rules, reaches none of the error branches two-fork-roots / missing-vote /
-  not-enough-votes, reports "all decided no" only if the rules decide every validator no, and a
-  returned Atropos is `IsAtropos`; conversely (`C10_single_election_complete`) every decision the
-  rules derive from a fed root is stored, and (`C10_single_election_same_result`) any other closed
-  feed containing the same roots returns the same Atropos.
+  L1 (`L1_quorums_share_honest`, `L1_graph`), L2 (`L2_one_root_per_slot`), L3 (`L3_votes_stable`),
+  L4 (`L4_decision_is_final`), `atropos_unique`, and L6 (`L6_not_all_decided_no`: for every frame
+  `f ≥ 1` some validator is not decided "no"; false for `f = 0`, which the Orderer never decides);
+* the single-election tie (`C10_single_election_partial`, `C10_single_election_BFT`,
+  `C10_processRoot_refines`, `C10_single_election_complete`, `C10_single_election_same_result`);
+* L5, the lifting to whole `Orderer.process` runs of one epoch (`L5_process_invariant`,
+  `L5_run_invariant`, `L5_facts`): along any parents-first processing order, with `observe` = the
+  graph forkless cause, after every `process` call (a) `s.roots` is exactly the graph roots of the
+  processed events, (b) the open election has `frameToDecide = ldf + 1` and stores the votes and
+  decisions of the rules for the known roots of later frames, all of which have been fed, (c)
+  everything decidable from the known roots has been decided; every event is accepted (the frame
+  check passes exactly because the claimed frame obeys the frame rule, no election error is
+  reachable — "all decided no" by L6); every emitted block carries the next frame and the Atropos of
+  the rules. Hence `C10_model_eq_rules_partial`: the `(frame, Atropos)` sequence emitted by the
+  model over all events of a history is the sequence of Atropoi of the Prop-level rules for the
+  frames 1, 2, … up to the first frame without Atropos;
+* the executable reference `Spec/Lachesis.lean` (the oracle of the `cons`/`vec` streams) agrees with
+  the Prop-level rules on ancestry, forks, the merged highest-before view and forkless cause
+  (`reference_anc_eq_rules`, `reference_fork_eq_rules`, `reference_hb_eq_rules`,
+  `reference_fc_eq_rules`, `reference_fc_eq_rules_reachable`, `reference_hist_valid`), for every
+  instance built by `Inst.insert` / reached by the oracle.
 
-NOT proved: L5 (the invariant that `handleElection` +
-`bootstrapElection` maintain across decisions, lifting the single election to whole `Orderer` runs
-and epochs, i.e. "model blocks = reference blocks"), L6 (not every subject is decided no), and the equivalence of the executable reference
-`Spec/Lachesis.lean` with the Prop-level rules of `Spec/ElectionRules.lean`. That the accepted
-frames and the forkless-cause index of the real code are the graph ones is C04 / C05. The equality
-"real code = this model = reference `Spec.Lachesis`" is checked three ways on every scenario of the
-`cons` stream.
+Hypotheses of the L5 theorems beyond "valid events, forkers below one third" (`OrdererProofs.Ctx`):
+the forkless-cause oracle answers `N.FC` (C05), the validator record is canonical with total
+≤ 2^31-1 (C12), accepted frames are < 2^31, the application never seals (one epoch).
+
+NOT proved: the frame/election part of the executable reference (`rootsAt`, `quorumOn`, `allowed`,
+`votesOfFrame`, `atroposSpec`, `decideLoop`) versus the Prop-level rules — so "model blocks =
+reference blocks" is proved against the Prop-level rules only; cheaters and confirmed events of a
+block (C03/C02), several epochs / sealing (C09), restarts (C08). That the accepted frames and the
+forkless-cause index of the real code are the graph ones is C04 / C05. The equality "real code =
+this model = reference `Spec.Lachesis`" is checked three ways on every scenario of the `cons` stream.
 -/
 namespace C10
 open Model.Pos Model.Election
@@ -323,8 +334,9 @@ open Classical
     model, started from `reset` and fed roots by `runRoots` (= the loop of `processKnownRoots`, see
     `knownRootsFrame_eq`; it stops at the first returned Atropos), under `Setup`:
     validators in canonical numbering with the weights of the graph `N` and a total ≤ 2^31-1;
-    `observe` = the graph forkless cause `N.FC` (C05's `FCSpec`); `frameRoots g` = exactly the roots
-    of frame `g` (once each, labelled with their creator); creators are validators; accepted frames
+    `observe` = the graph forkless cause `N.FC` (C05's `FCSpec`); `frameRoots g` lists roots of frame
+    `g` (once each, labelled with their creator) and contains every root that a listed root
+    forkless-causes (the table of any parents-first prefix does); creators are validators; accepted frames
     obey the frame rule; slot uniqueness (`N.SlotUnique` — the conclusion of L2, see
     `C10_single_election_BFT` where it is discharged from BFT); `f < 2^32`.
     `FeedClosed`: every fed root is a root with frame `< 2^32` and the roots of the previous frame it
@@ -337,8 +349,9 @@ open Classical
     subject, every stored decision is `N.DecidedYes` / `N.DecidedNo`; and a returned result `(f', a)`
     has `f' = f` and `N.IsAtropos f a`.
     The converse is `C10_single_election_complete` / `C10_single_election_same_result`.
-    NOT proved here (hence `_partial`): the lifting from one election to whole `Orderer` runs with
-    restarts of the election after each decision (L5), and L6. -/
+    `_partial`: this is one election; the lifting to whole `Orderer` runs with restarts of the
+    election after each decision is L5 below (`L5_process_invariant`), where "all decided no" is
+    excluded by L6. -/
 theorem C10_single_election_partial (N : Net) (vals : Vals) (f : Nat) (observe : Nat → Nat → Bool)
     (frameRoots : Nat → List Root) (S : Setup N vals f observe frameRoots) (rs : List Root)
     (hfc : FeedClosed observe frameRoots f [] rs) :
@@ -416,6 +429,139 @@ example : Extends { ElectionExample.net with h := ElectionExample.net.h.take 2 }
 example : ∃ el', runRoots (fun a b => decide (exNet.FC a b)) (rootsOf exNet) (reset (canonVals exNet) 1) [] = .ok (el', none) :=
   ⟨_, rfl⟩
 end Refinement
+
+/-! ### (6) L6, and L5: whole `Orderer.process` runs -/
+section Runs
+open ElectionRules VecProofs ElectionRefine ElectionProofs OrdererProofs Model.Orderer
+
+/-- L6: in a valid history with accepted frames and forkers below one third, for every frame `f ≥ 1`
+    some validator is not decided "no" (weighted double counting over the round-1 votes,
+    `Proofs/ElectionL6.lean`). For `f = 0` the statement is false (no roots to vote for). -/
+theorem L6_not_all_decided_no (N : Net) : N.L6 := N.L6_holds
+
+/-- L5, one step. `Ctx`: valid history `N`, accepted frames below 2^31, BFT, canonical validator record,
+    `env.observe` = `N.FC`, no sealing. `OInv N vals done blocks s`: the instance has processed the
+    events `done` (closed under ancestry), `s.roots` lists exactly the graph roots of those events
+    (once each), it has emitted `blocks`, whose frames are 1, 2, … and whose Atropoi are those of the
+    rules, and `s.ldf = blocks.length`. `OpenEl N vals s (fun _ => False)`: for some list `fed` of
+    table roots containing every table root of a frame `> ldf + 1`, the open election `s.el` has
+    `frameToDecide = ldf + 1`, every stored vote is `N.voteYes`, every stored decision is
+    `N.DecidedYes/No` (`JS`), votes and decisions stem from fed roots (`JC`), every fed root has its
+    votes stored (`Stored`), every decision the rules derive from a fed root is stored (`Complete`),
+    and `chooseAtropos s.el = none` (nothing more is decidable from the known roots).
+    Then `process` of a new event whose ancestors have all been processed is accepted — no
+    wrong-frame, no election error — and re-establishes both with the event added and the new
+    blocks appended. -/
+theorem L5_process_invariant {N : Net} {vals : Vals} {env : Env} (C : Ctx N vals env) {done : List Nat}
+    {blocks : List (Nat × Nat)} {s : OState} (I : OInv N vals done blocks s) (O : OpenEl N vals s (fun _ => False))
+    (id : Nat) (hid : id < N.h.length) (hnew : id ∉ done) (hpar : ∀ x, Anc N.h id x → x ≠ id → x ∈ done) :
+    ∃ s' ds, process env s id (N.creator id) (N.spf id) (N.fr id) = (s', .ok ds) ∧
+      OInv N vals (id :: done) (blocks ++ ds.map blk) s' ∧ OpenEl N vals s' (fun _ => False) :=
+  process_spec C I O id hid hnew hpar
+
+/-- L5 for a whole run from the start of an epoch, in any parents-first order -/
+theorem L5_run_invariant {N : Net} {vals : Vals} {env : Env} (C : Ctx N vals env) (ep : Nat) (ids : List Nat)
+    (hpf : PFFrom N [] ids) :
+    ∃ s ds, runIds N env ids (initial ep vals) [] = some (s, ds) ∧
+      OInv N vals ids.reverse (ds.map blk) s ∧ OpenEl N vals s (fun _ => False) :=
+  L5_run C ep ids hpf
+
+/-- what the two invariants say, spelled out: (a) the table, (b) the open election, (c) completeness -/
+theorem L5_facts {N : Net} {vals : Vals} {done : List Nat} {blocks : List (Nat × Nat)} {s : OState}
+    (I : OInv N vals done blocks s) (O : OpenEl N vals s (fun _ => False)) :
+    (∀ r, r ∈ s.roots ↔ (r.id ∈ done ∧ N.IsRoot r.id r.frame ∧ r.validator = N.creator r.id)) ∧
+    s.el.frameToDecide = s.ldf + 1 ∧
+    (∀ r v vote, ((r, v), vote) ∈ s.el.votes → r ∈ s.roots ∧ s.ldf + 1 < r.frame ∧
+      (vote.yes = true ↔ N.voteYes (s.ldf + 1) (r.frame - (s.ldf + 1)) r.id v)) ∧
+    (∀ v vote, (v, vote) ∈ s.el.decidedRoots →
+      (vote.yes = true → N.DecidedYes (s.ldf + 1) v) ∧ (vote.yes = false → N.DecidedNo (s.ldf + 1) v)) ∧
+    (∀ r ∈ s.roots, s.ldf + 1 < r.frame → ∀ v, v < N.nVals →
+      (N.DecidesYes (s.ldf + 1) (r.frame - (s.ldf + 1)) r.id v ∨ N.DecidesNo (s.ldf + 1) (r.frame - (s.ldf + 1)) r.id v) →
+      ∃ vote, s.el.decidedRoots.lookup v = some vote) ∧
+    chooseAtropos s.el = .ok none := by
+  obtain ⟨fed, E, hsub, hall⟩ := O
+  refine ⟨I.table.mem, E.js.ftd, ?_, ?_, ?_, E.undecided⟩
+  · intro r v vote hm
+    obtain ⟨a, _, _, d, _⟩ := E.js.votes r v vote hm
+    exact ⟨hsub r (E.jc.votes_fed r v vote hm), a, d⟩
+  · intro v vote hm
+    obtain ⟨_, b, c⟩ := E.js.decided v vote hm
+    exact ⟨fun h => (b h).1, c⟩
+  · intro r hr hfr v hv hd
+    exact E.complete r ((hall r hr hfr).elim id False.elim) hfr v hv hd
+
+/-- `C10_model_eq_rules_partial`: an instance of the model that processes all events of `N` in any
+    parents-first order accepts every event and emits, for the frames 1, 2, …, exactly the Atropoi
+    of the rules, and stops exactly at the first frame that has no Atropos by the rules.
+    Hence "model blocks = blocks of the Prop-level rules" for `(frame, Atropos)` in one epoch.
+    (`_partial`: hypotheses `Ctx` beyond valid events + BFT, no cheaters / confirmed events / epochs,
+    and the rules are the Prop-level ones, not the executable reference.) -/
+theorem C10_model_eq_rules_partial {N : Net} {vals : Vals} {env : Env} (C : Ctx N vals env) (ep : Nat)
+    (ids : List Nat) (hpf : PFFrom N [] ids) (hall : ∀ e, e < N.h.length → e ∈ ids) :
+    ∃ s ds, runIds N env ids (initial ep vals) [] = some (s, ds) ∧ s.ldf = ds.length ∧
+      (∀ i (h : i < ds.length), (ds[i]).frame = i + 1 ∧ N.IsAtropos (i + 1) (ds[i]).atropos) ∧
+      ∀ a, ¬ N.IsAtropos (ds.length + 1) a := by
+  obtain ⟨s, ds, h, I, O⟩ := L5_run C ep ids hpf
+  refine ⟨s, ds, h, by rw [I.ldf, List.length_map], ?_, ?_⟩
+  · intro i hi
+    have hi' : i < (ds.map blk).length := by rw [List.length_map]; exact hi
+    have f1 := I.frames i hi'
+    have a1 := I.atropoi _ (List.getElem_mem hi')
+    rw [List.getElem_map] at f1 a1
+    have f1' : (ds[i]).frame = i + 1 := f1
+    exact ⟨f1', by rw [← f1']; exact a1⟩
+  · intro a
+    have := no_next_atropos C I O (fun e he => List.mem_reverse.2 (hall e he)) a
+    rw [List.length_map] at this
+    exact this
+
+/-- non-vacuity: `Ctx`, the order and the run of the three-event example -/
+example : Ctx ElectionExample.net ElectionExample.vals Example.env ∧ PFFrom ElectionExample.net [] [0, 1, 2] :=
+  ⟨Example.ctx, Example.pf⟩
+end Runs
+
+/-! ### (7) the executable reference `Spec/Lachesis.lean` agrees with the Prop-level rules -/
+section Reference
+open Spec.Lachesis RefEquiv VecProofs
+
+/-- bit-mask ancestry of the reference = `Anc` of the associated history (`histOf`: creators are
+    canonical validator indices, parents are positions), for every instance built by `Inst.insert` -/
+theorem reference_anc_eq_rules {ep : Nat} {vals : List (Nat × Nat)} {evs : List Ev} {s : Inst}
+    (hb : Built ep vals evs s) {a : Nat} (ha : a < s.size) (x : Nat) :
+    (bit (s.ancOf a) x = true ↔ Anc (histOf s) a x) ∧ (bit (s.descOf a) x = true ↔ Anc (histOf s) x a) :=
+  ⟨ancOf_iff hb ha x, descOf_iff hb ha x⟩
+
+/-- the reference's fork test and stored fork mask = `ForkSeen` -/
+theorem reference_fork_eq_rules {ep : Nat} {vals : List (Nat × Nat)} {evs : List Ev} {s : Inst}
+    (hb : Built ep vals evs s) {a v : Nat} (ha : a < s.size) (hv : v < s.nv) :
+    (s.forkIn (s.ancOf a) v = true ↔ ForkSeen (histOf s) a v) ∧ (bit (s.forksOf a) v = true ↔ ForkSeen (histOf s) a v) :=
+  ⟨forkIn_iff hb ha hv, forks_iff hb ha v⟩
+
+/-- C06 oracle: `hbSpec` is "fork" exactly when a fork is visible, otherwise the highest observed seq -/
+theorem reference_hb_eq_rules {ep : Nat} {vals : List (Nat × Nat)} {evs : List Ev} {s : Inst}
+    (hb : Built ep vals evs s) {a v : Nat} (ha : a < s.size) (hv : v < s.nv) :
+    (s.hbSpec a v = none ↔ ForkSeen (histOf s) a v) ∧
+    (∀ m, s.hbSpec a v = some m ↔ (¬ ForkSeen (histOf s) a v ∧ MaxSeq (histOf s) a v m)) :=
+  ⟨hbSpec_none_iff hb ha v, fun _ => ⟨hbSpec_some hb ha hv, fun h => hbSpec_of_maxSeq hb ha hv h.1 h.2⟩⟩
+
+/-- C05 oracle: `fcSpec` = `FCSpec` = `Net.FC` of the associated net (same quorum) -/
+theorem reference_fc_eq_rules {ep : Nat} {vals : List (Nat × Nat)} {evs : List Ev} {s : Inst}
+    (hb : Built ep vals evs s) {a b : Nat} (ha : a < s.size) (hbb : b < s.size) :
+    (s.fcSpec a b = true ↔ (netOf s).FC a b) ∧
+    (s.fcSpec a b = true ↔ FCSpec (histOf s) s.nv s.weightIdx s.quorum a b) ∧ (netOf s).quorum = s.quorum :=
+  ⟨fcSpec_iff_FC hb ha hbb, fcSpec_iff_FCSpec hb ha hbb, quorum_netOf s⟩
+
+/-- the same for every state the oracle reaches from `Inst.fresh` through `process` (sealing included) -/
+theorem reference_fc_eq_rules_reachable {s : Inst} (hr : Reach s) {a b : Nat} (ha : a < s.size) (hbb : b < s.size) :
+    s.fcSpec a b = true ↔ (netOf s).FC a b := hr.good.fcSpec_iff_FC ha hbb
+
+/-- the associated history is `Valid` when every inserted event passes the event checks (`GoodEv`) -/
+theorem reference_hist_valid {ep : Nat} {vals : List (Nat × Nat)} {evs : List Ev} {s : Inst}
+    (hg : GoodBuilt ep vals evs s) : Valid s.nv (histOf s) := hg.valid
+
+/-- non-vacuity: a concrete instance (2 validators, 3 events) built with `insert` -/
+example : Built 1 RefEquiv.exVals exEvs exInst ∧ GoodBuilt 1 RefEquiv.exVals exEvs exInst := ⟨exBuilt, exGoodBuilt⟩
+end Reference
 
 /-! ### non-vacuity -/
 def exampleElection : Election :=
